@@ -6,7 +6,7 @@
    per-attempt answers of the environment (unreachable / reachable+hooks accept / hook rejects). *)
 From Coq Require Import Strings.String Strings.Byte.
 From Coq Require Import List Arith NArith ZArith Bool Lia.
-From Verif Require Import Model.Redial Proofs.RedialProofs.
+From Verif Require Import Model.Redial Proofs.RedialProofs Proofs.RedialLiveProofs.
 Import ListNotations.
 
 (* Calls in flight at the loss complete with connection-closed: when the disconnecting
@@ -137,6 +137,39 @@ Theorem C13_stale_reader_closes_new_connection_refuted : exists evs k,
    nth_error (calls s) 0 = Some (mkCall true false (CDone RClosed))).
 Proof. exact (ex_intro _ w_overlap (ex_intro _ 12 w_overlap_lemma)). Qed.
 Print Assumptions C13_stale_reader_closes_new_connection_refuted.
+
+(* no_stuck_status / "later calls succeed once the server is reachable", the part that holds:
+   from EVERY reachable quiescent state that is not Ok (passive-closing limbo, passive-closed,
+   redial-failed), with redial configured and the server reachable, one further user call brings
+   the same session back to Ok in 8 steps: one round of one attempt, hooks re-run once, new
+   reader, and the call has passed write()'s status check on the new connection. *)
+Theorem C13_later_call_recovers_partial : forall n uid p d s,
+  reachable n uid p d s -> quiescent s = true -> n <> 0%Z ->
+  status_ s <> SOk -> plan s = [] -> pdef s = VA ->
+  let k := length (calls s) in
+  let s' := run s (recover_events k) in
+  status_ s' = SOk /\ health s' = true /\ okrounds s' = S (okrounds s) /\
+  conn s' = fresh s /\ lock s' = None /\
+  nth_error (calls s') k = Some (mkCall false false (CAtPrelock (conn s'))) /\
+  readers s' = readers s ++ [(conn s', RReading)] /\
+  rounds s' = rounds s ++ [(1, true)] /\ hooks s' = hooks s ++ [(true, VA)].
+Proof. exact one_call_recovers_lemma. Qed.
+Print Assumptions C13_later_call_recovers_partial.
+
+(* exhausted_ends, "later calls fail with a connection error after at most one further bounded
+   round": from every reachable quiescent non-Ok state, budget b > 0, server unreachable, a
+   later call completes with connection-closed after exactly one round of 1+b attempts and
+   leaves the status redial-failed and Health false. *)
+Theorem C13_later_call_fails_after_one_round : forall n uid p d s b,
+  reachable n uid p d s -> quiescent s = true -> n = Z.of_nat b -> b <> 0 ->
+  status_ s <> SOk -> plan s = [] -> pdef s = VU ->
+  let k := length (calls s) in
+  let s' := run s (fail_events k b) in
+  nth_error (calls s') k = Some (mkCall false false (CDone RClosed)) /\
+  rounds s' = rounds s ++ [(S b, false)] /\ status_ s' = SRedialFailed /\ health s' = false /\
+  lock s' = None /\ notified s' = notified s /\ index s' = index s.
+Proof. exact later_call_fails_lemma. Qed.
+Print Assumptions C13_later_call_fails_after_one_round.
 
 (* Non-vacuity: a plain loss followed by a reader-triggered redial on the second attempt. *)
 Example C13_example :
